@@ -81,6 +81,8 @@ package common
 //@ axiom lowerParamNames: strings.ToLower("Path") == "path" && strings.ToLower("Query") == "query" && strings.ToLower("Header") == "header" && strings.ToLower("Body") == "body" && strings.ToLower("FormField") == "formfield"
 
 //@ event nodeRemoved(baseId string, fileId string) local
+// the canonical re-ordering of a rendered spec (keys sorted, enum arrays sorted) was applied
+//@ event orderedJSON() local
 
 // assumed: rendering an error as text has no effect on caller-visible state
 //@ extern error.Error
